@@ -32,7 +32,7 @@ ASSUMPTIONS = [
     "two builds of one DesignSpec with the same uid are 'the same design' (same names, fresh objects)",
     "comparison is on packages with per-instance connections sorted by port name; raw-unequal-but-canonically-equal is counted",
 ]
-REQUIRED_COUNTERS = ["history.calls", "compare.final", "compare.intermediate", "compare.intermediate-list", "compare.final-list", "late-parent.histories"]
+REQUIRED_COUNTERS = ["history.calls", "additions.attempted", "compare.final", "compare.intermediate", "compare.intermediate-list", "compare.final-list", "late-parent.histories"]
 MIN_EVALS = 1000
 MIN_NONTRIVIAL = 800
 
@@ -151,7 +151,7 @@ def fresh_package(design, uid, names):
     return _fresh_cache[key]
 
 
-def replay_history(rec, label, design, uid, history, late=False, sample=False):
+def replay_history(rec, label, design, uid, history, late=False, sample=False, additions=False):
     """history: [(kind, [module names])]; late: modules are constructed only when first needed."""
     top = design["top"]
     case = {"kind": "history", "label": label, "design": design, "uid": uid, "history": history, "late": late}
@@ -239,6 +239,43 @@ def replay_history(rec, label, design, uid, history, late=False, sample=False):
                       case=case, late=late)
     elif final.SerializeToString(deterministic=True) != again.SerializeToString(deterministic=True):
         rec.violation("re-export-changes-package", f"[{label}] a second to_proto(top) returned a different package", case=case)
+    elif additions:
+        refuses_additions(rec, label, sess, top, final, case)
+
+
+def refuses_additions(rec, label, sess, top, final, case):
+    """Every elaborated module of the session refuses further additions - under fresh names and under names it already holds -
+    and the refused attempts leave the design as it was."""
+    import hdl21 as h
+
+    leaf = build.leaf_call("E2", 991)
+    for mname, m in list(sess.built.modules.items()):
+        if m._elaborated is None:
+            continue
+        held = {"signal": next(iter(m.signals), None), "port": next(iter(m.ports), None), "instance": next(iter(m.instances), None)}
+        for target, name in [("fresh", "zzadd")] + [(k, v) for k, v in held.items() if v]:
+            for vk, mk in (("Signal", lambda: h.Signal()), ("Port", lambda: h.Input(width=2)), ("Instance", lambda: h.Instance(of=leaf))):
+                for form in ("setattr", "add"):
+                    rec.count("additions.attempted")
+                    try:
+                        if form == "setattr":
+                            setattr(m, name, mk())
+                        else:
+                            m.add(mk(), name=name)
+                    except Exception:
+                        continue
+                    rec.violation("post-elaboration-addition-accepted",
+                                  f"[{label}] {form} of a {vk} under {'a fresh name' if target == 'fresh' else 'the name of an existing ' + target} "
+                                  f"on the elaborated module {mname} was accepted", case=case, form=form, target=target)
+                    return
+    try:
+        after = h.to_proto(sess.mods([top])[0])
+    except Exception as e:
+        rec.violation("refused-addition-damages", f"[{label}] after refused additions to_proto(top) raised {oracle.exc_sig(e)[:140]}", case=case)
+        return
+    if after.SerializeToString(deterministic=True) != final.SerializeToString(deterministic=True):
+        rec.violation("refused-addition-damages", f"[{label}] after refused additions to_proto(top) returns a different package"
+                      + diff_text(after, canon(final)), case=case)
 
 
 def diff_text(pkg, ref_bytes) -> str:
@@ -325,10 +362,10 @@ def run(ctx, rec):
         uid = f"_c07s{ctx.shard}d{di}"
         hs = histories_for(d, rng, exhaustive=True, n_sampled=70 if ctx.quick else 400)
         for hi, h_ in enumerate(hs):
-            replay_history(rec, label, d, uid, [(k, n) for k, n in h_], late=False, sample=(hi % 900 == 5))
+            replay_history(rec, label, d, uid, [(k, n) for k, n in h_], late=False, sample=(hi % 900 == 5), additions=(hi % 10 == 0))
         # late parents: the same kinds of histories, but every module is only constructed when first needed
         for hi, h_ in enumerate(histories_for(d, rng, exhaustive=False, n_sampled=90 if ctx.quick else 500)):
-            replay_history(rec, label, d, uid, [(k, n) for k, n in h_], late=True, sample=(hi % 400 == 7))
+            replay_history(rec, label, d, uid, [(k, n) for k, n in h_], late=True, sample=(hi % 400 == 7), additions=(hi % 10 == 0))
         if di < (2 if ctx.quick else 6):
             fresh_process_crosscheck(rec, d, uid)
         rec.hist("histories_per_design", f"{label}: {len(hs)}")
@@ -344,6 +381,6 @@ def shards(ctx):
 def replay(ctx, rec, case):
     if case.get("kind") == "history":
         hist = [(k, tuple(n) if False else n) for k, n in case["history"]]
-        replay_history(rec, case.get("label", "replay"), case["design"], case["uid"] + "r", hist, late=case.get("late", False), sample=True)
+        replay_history(rec, case.get("label", "replay"), case["design"], case["uid"] + "r", hist, late=case.get("late", False), sample=True, additions=True)
     else:
         fresh_process_crosscheck(rec, case["design"], case["uid"])
